@@ -13,6 +13,7 @@ TRUSTED_BASE = [
     "Coq 8.16.1 kernel + coqc; vm_compute (bytecode VM) used for Examples, refutation witnesses and model evaluation; no native_compute",
     "axioms: none declared; every Props theorem must print 'Closed under the global context' (checked on every run), except Props/C03float.v (Flocq over Coq's reals), whose theorems depend on exactly the standard library's ClassicalDedekindReals.sig_forall_dec, ClassicalDedekindReals.sig_not_dec, FunctionalExtensionality.functional_extensionality_dep, Classical_Prop.classic (also checked on every run)",
     "translator /verif/translator/py2gallina.py (Python ast -> Gallina; pointwise reading of numpy array expressions; np.clip(x,0,None)=max 0 x; Python range)",
+    "the other translators under /verif/translator, each fail-closed, each with the table of its trusted readings in its docstring: py2gallina_cache (cache decisions over an abstract file system), _revise (pandas idioms of the revision's recursion), _guards (refusal guards as boolean functions), _reader (loading protocol over symbolic file names), _writers (writers as file-action lists), _store (h5py require_dataset), _overlap (assignment log of the overlap loop), _merge (recogniser of the summation), _lookup (lookup by labels), _jobs (file names through the job tuples), _pair (dicts, sets, list(s)[0] as an oracle), _flow (which statements may raise; polls of a queue are not failures; an uncaught exception of the main block is a non-zero exit status; pool.map re-raises), _cf (queue/event loops as interaction programs)",
     "correspondence harness /verif/harness (generators, drivers, abstraction functions, float acceptance rule |v-N/D|<=2^-22 and round(v*D)=N, parser of Coq's printed list Z); no OCaml extraction",
     "CPython 3.12, pandas 3.0.6, numpy 2.5.3, h5py 3.16/HDF5, multiprocessing, the file system",
     "modelled not verified: int32/float32 narrowing (theorems over Z; coordinates <= 2^31-1, regions <= 2^21 in the harness), pandas/h5py semantics tied by execution only",
